@@ -83,3 +83,33 @@ func PopRight(words []uint64, i int32) []int32 {
 	}
 	return append([]int32(nil), idx[:n]...)
 }
+
+// CounterWrong records one entry per step of a walk that ends when the data says so.
+func CounterWrong(next []int) int {
+	var path [8]int
+	depth := 0
+	at := 0
+	for {
+		path[depth] = at
+		depth++
+		at = next[at]
+		if at < 0 {
+			break
+		}
+	}
+	return path[0] + depth
+}
+
+// CounterRight does the same in a counted loop.
+func CounterRight(next []int) int {
+	var path [8]int
+	at := 0
+	for depth := 0; depth < 8; depth++ {
+		path[depth] = at
+		at = next[at]
+		if at < 0 {
+			break
+		}
+	}
+	return path[0]
+}
